@@ -520,7 +520,7 @@ pub fn exec_drop_race(case: &DropRaceCase, tally: &mut Tally) -> Result<(), Fail
             if entered_rx.recv_timeout(std::time::Duration::from_secs(5)).is_err() {
                 let _ = release_tx.send(());
                 let _ = writer.join();
-                return Err(Failure::new("C15/setup", "dispatch did not start"));
+                return Ok(usize::MAX); // machine too loaded to set the schedule up: no verdict
             }
             let (about_tx, about_rx) = mpsc::channel::<()>();
             let dropper = scope.spawn(move || {
@@ -539,7 +539,10 @@ pub fn exec_drop_race(case: &DropRaceCase, tally: &mut Tally) -> Result<(), Fail
         }
         Ok(0)
     })?;
-    let _ = calls_after_drop;
+    if calls_after_drop == usize::MAX {
+        tally.discard("dispatch did not start within 5 s");
+        return Ok(());
+    }
     // The drop has returned: from now on the dropped subscription must stay silent.
     let before = victim_calls.load(Ordering::SeqCst);
     let r = guard(|| {
